@@ -69,7 +69,9 @@ claim("C11",
       "Theorems (Coq): on the regenerated 682-entry table and RTF_CHAR_MAPPING — every command alone reads back as its "
       "mapped character; the two-pass model equals the independent single-pass reference tokenizer on every command in 16 "
       "context templates and on the special sequences; pass-1 control words are not captured by pass 2 (finite, by "
-      "computation, re-checked whenever the code's tables change); text without trigger characters is only escaped "
+      "computation, re-checked whenever the code's tables change); one step of the pass-2 scanner for ALL names, brace groups and "
+      "continuations (the whole match - command, or command with its brace group - is looked up; a miss stays verbatim; unbounded); "
+      "text without trigger characters is only escaped "
       "(unbounded, induction); conversion off = escaping only. Against the implementation: reader-level events of every "
       "rendered probe run vs the reference converter, for all 682 commands in every component kind and per-cell flags.",
       "Model = reference for all texts is not proved (C11_partial). Known findings C11-sign-space and C11-pagefield-space "
